@@ -82,6 +82,55 @@ def registerIdentity {σ} (W : World σ) (datagramOk saveOk : Bool) (c : Caller)
     else if !saveOk then (st, .err "kv")
     else (W.saveToken st t, .registered)
 
+/-! ## identity extraction: `pki.ExtractCertificateIdentity` behind `extractAuthenticated`
+
+The certificate's CommonName is `strings.SplitN(cn, ":", 3)`: cut at the FIRST and the SECOND separator
+only, the third part is the whole remainder (it may contain further separators). Exactly three parts are
+required. `v1:<id>:<token>` carries the remainder as token, `v2:<id>:<hash>` carries the ENTIRE CommonName
+as token; `<id>` goes through `util.Must(strconv.ParseUint(id, 10, 64))` (panics when it is not a number).
+Subjects are lists of characters here (the driver converts). -/
+
+/-- cut at the first `:` — `none` when there is none. -/
+def cut : List Char → Option (List Char × List Char)
+  | [] => none
+  | c :: cs =>
+    if c = ':' then some ([], cs)
+    else match cut cs with
+      | some (a, b) => some (c :: a, b)
+      | none => none
+
+/-- `strings.SplitN(cn, ":", 3)` when it yields three parts. -/
+def subjectParts (cn : List Char) : Option (List Char × List Char × List Char) :=
+  match cut cn with
+  | none => none
+  | some (a, r) =>
+    match cut r with
+    | none => none
+    | some (b, c) => some (a, b, c)
+
+def isDigit (c : Char) : Bool := decide ('0' ≤ c) && decide (c ≤ '9')
+
+def decVal (ds : List Char) : Nat := ds.foldl (fun n c => n * 10 + (c.toNat - '0'.toNat)) 0
+
+/-- `strconv.ParseUint(s, 10, 64)` succeeds: non-empty, decimal digits only (no sign, no underscore), < 2^64. -/
+def isUint64 (ds : List Char) : Bool := !ds.isEmpty && ds.all isDigit && decide (decVal ds < 2 ^ 64)
+
+def v1Tag : List Char := ['v', '1']
+def v2Tag : List Char := ['v', '2']
+
+/-- the caller `extractAuthenticated` sees for a verified certificate with CommonName `cn`. -/
+def callerOfSubject (cn : List Char) : Caller :=
+  match subjectParts cn with
+  | none => .badSubject
+  | some (v, id, tok) =>
+    if v = v1Tag then (if isUint64 id then .token (String.ofList tok) else .panicSubject)
+    else if v = v2Tag then (if isUint64 id then .token (String.ofList cn) else .panicSubject)
+    else .badSubject
+
+/-- `pki.MakeSubjectV1` / `MakeSubjectV2` shapes. -/
+def subjectV1 (id tok : List Char) : List Char := v1Tag ++ ':' :: (id ++ ':' :: tok)
+def subjectV2 (id hash : List Char) : List Char := v2Tag ++ ':' :: (id ++ ':' :: hash)
+
 /-- the caller the property lets through: verified certificate and a registered token. -/
 def authorized {σ} (W : World σ) (st : σ) : Caller → Prop
   | .token t => ∃ old, W.tokenRec st t = .client old
